@@ -53,14 +53,16 @@ type Controller struct {
 
 	// ext serialises: command delivery by the harness, ensureInactive, go activation and
 	// searchCompleted -- the sections whose relative order decides what "superseded" means.
-	ext      sync.Mutex
-	extOwner map[int64]bool
-	stop     chan struct{}
+	ext        sync.Mutex
+	extOwner   map[int64]bool
+	suspended  map[int64]bool
+	inInactive map[int64]bool
+	stop       chan struct{}
 }
 
 func New(seed int64) *Controller {
 	c := &Controller{counts: map[string]int{}, arrivals: map[string]int{}, gidx: map[int64]int{}, roles: map[int64]string{}, nrole: map[string]int{},
-		rnd: rand.New(rand.NewSource(seed)), extOwner: map[int64]bool{}, stop: make(chan struct{})}
+		rnd: rand.New(rand.NewSource(seed)), extOwner: map[int64]bool{}, suspended: map[int64]bool{}, inInactive: map[int64]bool{}, stop: make(chan struct{})}
 	c.cond = sync.NewCond(&c.mu)
 	go func() { // wake up waiters periodically so that they can notice time-outs
 		t := time.NewTicker(2 * time.Millisecond)
@@ -137,14 +139,21 @@ func (c *Controller) Handle(name string, kv ...any) {
 		}
 	}
 	c.mu.Unlock()
-	// (b) enter the serialised section before its shared access
-	if opens[name] {
+	// (b) enter the serialised section before its shared access. Engine.Halt inside ensureInactive is
+	// NOT part of the section (it may block for long, and a completion racing with it is exactly
+	// what must stay observable): the section is suspended at engine.halt.begin and resumed at
+	// engine.halt.end, so that only the accesses to `active` before and after the halt are serialised.
+	c.mu.Lock()
+	resume := name == "engine.halt.end" && c.suspended[g]
+	c.mu.Unlock()
+	if opens[name] || resume {
 		c.ext.Lock()
 	}
 	// (c) record
 	c.mu.Lock()
-	if opens[name] {
+	if opens[name] || resume {
 		c.extOwner[g] = true
+		delete(c.suspended, g)
 	}
 	if _, ok := c.gidx[g]; !ok {
 		c.gidx[g] = len(c.gidx) + 1
@@ -167,6 +176,17 @@ func (c *Controller) Handle(name string, kv ...any) {
 	}
 	inside := c.extOwner[g]
 	owner := closes[name] && inside
+	if name == "engine.halt.begin" && inside && c.inInactive[g] {
+		owner = true
+		c.suspended[g] = true
+	}
+	if name == "uci.inactive.begin" {
+		c.inInactive[g] = true
+	}
+	if name == "uci.inactive.end" {
+		delete(c.inInactive, g)
+		delete(c.suspended, g)
+	}
 	if owner {
 		delete(c.extOwner, g)
 	}
